@@ -58,3 +58,78 @@ def load(path=None):
     info['functions'] = sum(len(v) for v in fns.values())
     info['consts'] = len(consts)
     return fns, consts, info
+
+
+# ---------------------------------------------------------------- shared scratch cache (dependencies only persist)
+import fcntl, contextlib
+
+
+@contextlib.contextmanager
+def cache_lock(name):
+    root = os.path.join(scratch_root(), 'cache')
+    os.makedirs(root, exist_ok=True)
+    fh = open(os.path.join(root, name + '.lock'), 'w')
+    fcntl.flock(fh, fcntl.LOCK_EX)
+    try:
+        yield root
+    finally:
+        fcntl.flock(fh, fcntl.LOCK_UN)
+        fh.close()
+
+
+def sync_repo(dst):
+    """make dst an exact copy of /repo's working tree (mtimes preserved so unchanged dependencies are not rebuilt)"""
+    os.makedirs(dst, exist_ok=True)
+    subprocess.check_call(['rsync', '-a', '--delete', '--exclude', 'target', '--exclude', '.git', REPO + '/', dst + '/'])
+
+
+def build_native(profile='dev'):
+    """builds /verif/replay against the current /repo tree; returns path of the binary"""
+    here = os.path.dirname(os.path.dirname(os.path.abspath(__file__)))
+    with cache_lock('native') as root:
+        repo = os.path.join(root, 'native-repo')
+        sync_repo(repo)
+        crate = os.path.join(root, 'native-crate')
+        os.makedirs(os.path.join(crate, 'src'), exist_ok=True)
+        tmpl = open(os.path.join(here, 'replay', 'Cargo.toml.in')).read().replace('@REPO@', repo)
+        _write_if_changed(os.path.join(crate, 'Cargo.toml'), tmpl)
+        _write_if_changed(os.path.join(crate, 'src', 'main.rs'), open(os.path.join(here, 'replay', 'src', 'main.rs')).read())
+        if not os.path.exists(os.path.join(crate, 'Cargo.lock')):
+            shutil.copy(os.path.join(repo, 'Cargo.lock'), os.path.join(crate, 'Cargo.lock'))
+        env = dict(os.environ, CARGO_NET_OFFLINE='true', CARGO_TARGET_DIR=os.path.join(root, 'target-native'))
+        env.pop('RUSTUP_TOOLCHAIN', None)
+        cmd = ['cargo', 'build', '--offline'] + (['--release'] if profile == 'release' else [])
+        p = subprocess.run(cmd, cwd=crate, env=env, stdout=subprocess.PIPE, stderr=subprocess.PIPE, text=True)
+        if p.returncode != 0:
+            raise RuntimeError('native replay build failed:\n' + p.stderr[-3000:])
+        binp = os.path.join(root, 'target-native', 'release' if profile == 'release' else 'debug', 'verif-replay')
+        # private copy so that a concurrent rebuild cannot swap the binary under us
+        out = tempfile.mkdtemp(prefix='native-', dir=scratch_root())
+        dst = os.path.join(out, 'verif-replay-' + profile)
+        shutil.copy(binp, dst)
+        return dst
+
+
+def _write_if_changed(path, text):
+    if os.path.exists(path) and open(path).read() == text:
+        return
+    with open(path, 'w') as fh:
+        fh.write(text)
+
+
+class Native:
+    """line-oriented conversation with the replay binary"""
+
+    def __init__(self, profile='dev'):
+        self.profile = profile
+        self.bin = build_native(profile)
+
+    def run(self, lines):
+        p = subprocess.run([self.bin], input='\n'.join(lines) + '\n', stdout=subprocess.PIPE, stderr=subprocess.PIPE, text=True, timeout=600)
+        out = p.stdout.strip().split('\n') if p.stdout.strip() else []
+        if len(out) != len(lines):
+            raise RuntimeError('native replay: %d answers for %d commands (rc=%s) %s' % (len(out), len(lines), p.returncode, p.stderr[-500:]))
+        return out
+
+    def close(self):
+        shutil.rmtree(os.path.dirname(self.bin), ignore_errors=True)
